@@ -1,6 +1,6 @@
 (* Executable model of the three machine-readable writers and their escaping functions:
      emacs   format_emacs_posts::write_xact / operator() / escape_string / flush  (emacs.cc:41-118, emacs.h:69-73)
-     csv     report_t::fn_quoted / fn_quoted_rfc / fn_join (report.cc:751-797) applied by the csv format
+     csv     report_t::fn_quoted / fn_quoted_rfc / fn_join (report.cc:751-799) applied by the csv format
              (report.h csv_format_, regenerated into Gen/CsvFormat.v)
      xml     put_xact / put_post / put_amount / put_commodity / put_account (xact.cc, post.cc, amount.cc,
              commodity.cc, account.cc) + boost::property_tree's write_xml_element and encode_char_entities
@@ -30,11 +30,14 @@ Definition emacs_escape (s : str) : str :=
   replace_char 34 [92; 34] (replace_char 92 [92; 92] s).
 Definition emacs_string (s : str) : str := 34 :: emacs_escape s ++ [34].
 
-(* report.cc:751-766 fn_quoted: dquote becomes backslash dquote; every other byte (also backslash) is copied *)
-Definition csv_quoted (s : str) : str := 34 :: replace_char 34 [92; 34] s ++ [34].
-(* report.cc:768-783 fn_quoted_rfc: dquote becomes dquote dquote *)
+(* report.cc:751-768 fn_quoted: dquote becomes backslash dquote, backslash becomes two
+   backslashes, every other byte is copied (one pass, the tests in this order) *)
+Definition csv_esc (c : Z) : str :=
+  if c =? 34 then [92; 34] else if c =? 92 then [92; 92] else [c].
+Definition csv_quoted (s : str) : str := 34 :: flat_map csv_esc s ++ [34].
+(* report.cc:770-785 fn_quoted_rfc: dquote becomes dquote dquote *)
 Definition csv_quoted_rfc (s : str) : str := 34 :: replace_char 34 [34; 34] s ++ [34].
-(* report.cc:785-797 fn_join: a newline becomes the two characters \ n *)
+(* report.cc:787-799 fn_join: a newline becomes the two characters \ n *)
 Definition join_lines (s : str) : str := replace_char 10 [92; 110] s.
 
 (* boost encode_char_entities (xml_parser_utils.hpp:47-82) *)
